@@ -8,7 +8,7 @@ From Texel Require Import Chess.Types Chess.Position Chess.PositionSpec Chess.Po
   Chess.BitBoardProofs Chess.RayProofs Chess.SliderProofs Chess.AttackProofs Chess.PawnProofs Chess.PseudoProofs
   Chess.MakeSpecProofs gen.BitBoardTables
   RevGen.RevGen RevGen.RevFacts RevGen.RevAbs RevGen.RevRestore RevGen.RevValid RevGen.RevCand RevGen.RevRaw RevGen.RevLegal
-  RevGen.RevPawn RevGen.RevCons RevGen.RevNoDup.
+  RevGen.RevPawn RevGen.RevCons RevGen.RevNoDup RevGen.RevTheorems.
 Import ListNotations.
 Local Open Scope N_scope.
 
@@ -350,6 +350,508 @@ Proof.
         replace (sq_of (zf t) (zr t - 1)) with e; [exact Hee|]. destruct Hzt as (A & B). rewrite A, B.
         replace (3 - 1)%Z with (zr e) by lia. symmetry. apply (coords_of_sq e He64).
       * rewrite Ewm. split; [exact Epr|]. split; [unfold mpT, pw; rewrite Et', Ewm; exact Hpawn|]. split; lia.
+Qed.
+
+(** ** the undo information *)
+Lemma geo_ranks : Geo q f t -> f <> t.
+Proof.
+  intros G E. destruct G as [_ B | _ B _ _ | _ B]; rewrite E in B; unfold dirOf in B; destruct wmC as [Ew|Ew]; unfold wm in Ew; rewrite Ew in B; lia.
+Qed.
+
+Lemma pw_facts : isPawnPiece pw = true /\ isKingPiece pw = false /\ pw <> EMPTY /\ pw < 13 /\
+  (pw =? WKING) || (pw =? BKING) = false /\ (pw =? WPAWN) || (pw =? BPAWN) = true /\ makeWhite pw = WPAWN /\
+  pw = (if wm then WPAWN else BPAWN) /\ has_color wm pw = true.
+Proof. unfold pw. generalize wm. intros []; repeat split; try reflexivity; discriminate. Qed.
+
+Lemma pw_not_king : (pw =? (if wm then WKING else BKING)) = false.
+Proof. unfold pw. generalize wm. intros []; reflexivity. Qed.
+
+Lemma moving_is_pawn : RawP -> movingPieceOf q m = pw.
+Proof.
+  intros [_ _ _ _ [(A & B & _)|(A & (k & Hk & B) & _)]]; unfold movingPieceOf.
+  - rewrite A. change (EMPTY =? EMPTY) with true. cbv iota. exact B.
+  - replace (mpromote m =? EMPTY) with false.
+    + fold wm. destruct pw_facts as (_ & _ & _ & _ & _ & _ & _ & E & _). symmetry. exact E.
+    + symmetry. apply N.eqb_neq. rewrite A, B. cbn [In promoKinds] in Hk. generalize wm. intro b.
+      destruct Hk as [<-|[<-|[<-|[<-|[]]]]]; destruct b; discriminate.
+Qed.
+
+Definition dz : Z := if wm then 8 else -8.
+Definition epRow : N := if wm then 5 else 2.
+Definition straight : Prop := zf f = zf t.
+
+Inductive CandP : Prop :=
+| mkCandP (captured : piece) (epFile : N) :
+    u_epSquare ui = epSquareOfFile wm epFile -> In epFile (epFiles (getEpMask q m pw captured incl)) ->
+    u_captured ui = captured -> captured < 13 -> has_color wm captured = false ->
+    (captured <> EMPTY -> has_color (negb wm) captured = true) ->
+    N.land (N.land (u_castleMask ui) (castleSqMask f)) (castleSqMask t) = castleMask q ->
+    (straight -> captured = EMPTY) ->
+    (~ straight -> captured = EMPTY -> Z.of_N t = u_epSquare ui) ->
+    CandP.
+
+Lemma sqX_eqb a b : a < 64 -> b < 64 -> (sqX a =? sqX b) = (zf a =? zf b)%Z.
+Proof.
+  intros _ _. pose proof (sqX_zf a) as A. pose proof (sqX_zf b) as B.
+  destruct (N.eqb_spec (sqX a) (sqX b)) as [E|E]; destruct (Z.eqb_spec (zf a) (zf b)) as [E2|E2]; try reflexivity; exfalso; [rewrite E in A; lia | apply E; lia].
+Qed.
+
+Lemma candP : RawP -> CandP.
+Proof.
+  intro R. pose proof (moving_is_pawn R) as Emv. destruct R as [Hf Ht Hfe Hg Hc].
+  pose proof (geo_ranks Hg) as Hft.
+  destruct (proj1 (genMoves_In zk q incl um) Hin) as (Hcd & _).
+  apply candidates_In in Hcd. destruct Hcd as (m' & _ & Hcd). apply candidatesFor_In in Hcd. cbv zeta in Hcd.
+  destruct Hcd as (p0 & castle & epFile & Hp0 & Hv & Hca & Hepf & Hmust & Eum).
+  assert (Em : m' = m) by (unfold m; rewrite Eum; reflexivity). subst m'.
+  rewrite Emv in Hv, Hca, Hepf, Hmust, Eum. fold wm in Hca, Hepf, Hmust, Eum.
+  set (captured := if wm then makeBlack p0 else p0) in *.
+  assert (Eui : ui = mkUndo captured (N.lor (getBaseCastleMask q m pw) castle) (epSquareOfFile wm epFile) 0%Z) by (unfold ui; rewrite Eum; reflexivity).
+  destruct pw_facts as (P1 & P2 & P3 & P4 & P5 & P6 & P7 & P8 & P9).
+  apply (mkCandP captured epFile).
+  - rewrite Eui. reflexivity.
+  - exact Hepf.
+  - rewrite Eui. reflexivity.
+  - unfold captured. cbn [In] in Hp0. destruct Hp0 as [<-|[<-|[<-|[<-|[<-|[<-|[<-|[]]]]]]]]; destruct wm; cbv; reflexivity.
+  - apply (captured_not_own q p0 Hp0).
+  - intro Hne. unfold validCapturePiece in Hv.
+    destruct (N.eqb_spec p0 EMPTY) as [E0|E0]; [exfalso; apply Hne; unfold captured; rewrite E0; destruct wm; reflexivity|].
+    destruct (N.eqb_spec p0 WKING) as [E1'|E1']; [discriminate|].
+    unfold captured. cbn [In] in Hp0. destruct Hp0 as [<-|[<-|[<-|[<-|[<-|[<-|[<-|[]]]]]]]]; try congruence; destruct wm; reflexivity.
+  - rewrite Eui. cbn [u_castleMask].
+    apply (castle_back q Hwf m captured pw Hf Ht Hft Hfe); [|intro Hk; rewrite P2 in Hk; discriminate|exact Hca].
+    intros i Hi Hq. destruct (rights_q q Hwf i Hi Hq) as (HK & HR). fold sqsQ in HK, HR.
+    destruct Hc as [(_ & B & _)|(_ & (k & Hk & B) & C)].
+    + split; intro E; fold t in E; rewrite <- E in *; fold mpT in HK, HR; rewrite B in *;
+        [revert HR | revert HK]; unfold rookOf, kingOf, pw; generalize wm; intros []; destruct (i <? 2); discriminate.
+    + split; intro E; fold t in E.
+      * rewrite <- E in HR. fold mpT in HR. rewrite B in HR. unfold lastRank in C. rewrite E in C.
+        cbn [In promoKinds] in Hk.
+        destruct (four_cases i Hi) as [-> | [-> | [-> | ->]]]; destruct wmC as [Ew|Ew]; rewrite Ew in HR, C;
+          try (vm_compute in C; discriminate); destruct Hk as [<-|[<-|[<-|[<-|[]]]]]; discriminate.
+      * rewrite <- E in HK. fold mpT in HK. rewrite B in HK. cbn [In promoKinds] in Hk. revert HK. unfold kingOf. generalize wm. intro b.
+        destruct Hk as [<-|[<-|[<-|[<-|[]]]]]; destruct b; destruct (i <? 2); discriminate.
+  - intro Hs. unfold straight in Hs. unfold validCapturePiece in Hv.
+    destruct (N.eqb_spec p0 EMPTY) as [E0|E0]; [unfold captured; rewrite E0; destruct wm; reflexivity|]. exfalso.
+    destruct (p0 =? WKING); [discriminate|]. rewrite P5, P6 in Hv. fold f t in Hv. rewrite (sqX_eqb f t Hf Ht) in Hv.
+    replace (zf f =? zf t)%Z with true in Hv by (symmetry; apply Z.eqb_eq; exact Hs). cbn [negb] in Hv. discriminate.
+  - intros Hns Hce. unfold mustBeEpCapture in Hmust. rewrite P7 in Hmust. fold f t in Hmust.
+    rewrite (sqX_eqb f t Hf Ht) in Hmust. unfold straight in Hns.
+    replace (zf f =? zf t)%Z with false in Hmust by (symmetry; apply Z.eqb_neq; exact Hns).
+    rewrite Hce in Hmust. change (WPAWN =? WPAWN) with true in Hmust. change (EMPTY =? EMPTY) with true in Hmust. cbn [negb andb] in Hmust.
+    apply negb_false_iff, Z.eqb_eq in Hmust. rewrite Eui. cbn [u_epSquare]. exact Hmust.
+Qed.
+
+(** ** the e.p. square of the undo information *)
+Definition yDnQ : N := if wm then 4 else 3.
+Definition yUpQ : N := if wm then 6 else 1.
+Definition oPawnQ : piece := if wm then BPAWN else WPAWN.
+
+Lemma ep_in captured epFile : In epFile (epFiles (getEpMask q m pw captured incl)) -> epFile <= 8 /\ (epFile < 8 ->
+  let epCase := mustBeEpCapture m pw captured && (sqY t =? epRow) in
+  (epCase = true -> getPiece q (mkSq (sqX t) yUpQ) = EMPTY /\ getPiece q (mkSq (sqX t) yDnQ) = EMPTY) /\
+  epFileOk (epBoardBefore q m pw captured epCase (sqX t) yDnQ oPawnQ) wm epFile = true).
+Proof.
+  intro H.
+  assert (Hm : getEpMask q m pw captured incl < 2 ^ 64).
+  { apply lt_2_64_of_bits. intros i Hi. apply getEpMask_bits in Hi. lia. }
+  apply (epFiles_In _ _ Hm) in H. split; [apply (getEpMask_bits _ _ _ _ _ _ H)|]. intros H8 epCase.
+  unfold getEpMask in H. cbv zeta in H. fold wm t in H. fold epRow yDnQ yUpQ oPawnQ in H. fold epCase in H.
+  set (x := sqX t) in *.
+  assert (Hx : x < 8) by (unfold x, sqX; apply N.mod_lt; lia).
+  destruct (epCase && negb _) eqn:Ebe; [rewrite N.bits_0 in H; discriminate|].
+  split.
+  - intro Ec. rewrite Ec in Ebe. cbn [andb] in Ebe. apply negb_false_iff, andb_true_iff in Ebe. destruct Ebe as (A & B).
+    apply N.eqb_eq in A, B. auto.
+  - set (M := if epCase then N.lor (if incl then 255 else 0) (bit x) else (if incl then 255 else 0)) in *.
+    assert (HMb : forall i, N.testbit M i = true -> i < 8).
+    { intros i Hi. unfold M in Hi. assert (H255 : N.testbit (if incl then 255 else 0) i = true -> i < 8).
+      { destruct incl; [|rewrite N.bits_0; discriminate]. intro H'. destruct (N.lt_ge_cases i 8) as [A|A]; [exact A|].
+        change 255 with (N.ones 8) in H'. rewrite N.ones_spec_high in H' by exact A. discriminate. }
+      destruct epCase; [|apply H255; exact Hi]. rewrite N.lor_spec in Hi. apply orb_true_iff in Hi. destruct Hi as [Hi|Hi]; [apply H255; exact Hi|].
+      rewrite bit_bits in Hi. apply N.eqb_eq in Hi. lia. }
+    assert (HM : M < 2 ^ 64) by (apply lt_2_64_of_bits; intros i Hi; apply HMb in Hi; lia).
+    destruct (negb (M =? 0)).
+    + apply (epLoop_bits (epBoardBefore q m pw captured epCase x yDnQ oPawnQ) wm M (bit 8) epFile HM) in H.
+      destruct H as [H|(_ & H)]; [rewrite bit_bits in H; apply N.eqb_eq in H; lia | exact H].
+    + rewrite bit_bits in H. apply N.eqb_eq in H. lia.
+Qed.
+
+Lemma epSquare_file epFile : epFile <= 8 -> Z.of_N t = epSquareOfFile wm epFile -> t < 64 ->
+  epFile < 8 /\ sqY t = epRow /\ sqX t = epFile.
+Proof.
+  intros H8 E Ht. unfold epSquareOfFile in E. destruct (N.eqb_spec epFile 8) as [E8|E8]; [lia|].
+  fold epRow in E. unfold mkSq in E. assert (Hlt : epFile < 8) by lia. split; [exact Hlt|].
+  assert (Et : t = epRow * 8 + epFile) by lia. unfold sqY, sqX. rewrite Et.
+  split; [rewrite N.div_add_l by lia; rewrite N.div_small by lia; lia | rewrite N.add_comm, N.mod_add by lia; apply N.mod_small; exact Hlt].
+Qed.
+
+Lemma sq_rowcol s : s < 64 -> Z.of_N (sqY s) = zr s /\ Z.of_N (sqX s) = zf s /\ s = sqY s * 8 + sqX s.
+Proof.
+  intro H. split; [apply sqY_zr|]. split; [apply sqX_zf|]. unfold sqY, sqX. pose proof (N.div_mod s 8 ltac:(lia)). lia.
+Qed.
+
+Definition IsEp : Prop := ~ straight /\ u_captured ui = EMPTY.
+
+Lemma ep_case : RawP -> CandP -> IsEp ->
+  Z.of_N t = u_epSquare ui /\ nthP sqsQ (Z.to_N (Z.of_N t - dz)) = EMPTY /\ sqY t = epRow /\ mpromote m = EMPTY.
+Proof.
+  intros R C (Hns & Hce). destruct R as [Hf Ht Hfe Hg Hc]. destruct C as [captured epFile Eep Hepf Ecap Hc13 Hcol Hcol2 Hcm Hst Hep].
+  rewrite Ecap in Hce. pose proof (Hep Hns Hce) as Et. split; [exact Et|].
+  destruct (ep_in captured epFile Hepf) as (H8 & Hok). rewrite Eep in Et.
+  destruct (epSquare_file epFile H8 Et Ht) as (Hlt & Hy & Hx).
+  destruct (Hok Hlt) as (Hboth & _).
+  destruct pw_facts as (P1 & P2 & P3 & P4 & P5 & P6 & P7 & P8 & P9).
+  assert (Hec : mustBeEpCapture m pw captured && (sqY t =? epRow) = true).
+  { unfold mustBeEpCapture. rewrite P7. fold f t. rewrite (sqX_eqb f t Hf Ht). unfold straight in Hns.
+    replace (zf f =? zf t)%Z with false by (symmetry; apply Z.eqb_neq; exact Hns). rewrite Hce, Hy, !N.eqb_refl. reflexivity. }
+  destruct (Hboth Hec) as (_ & Hdn). destruct (sq_rowcol t Ht) as (_ & _ & Dt).
+  split; [|split; [exact Hy|]].
+  - change (getPiece q (mkSq (sqX t) yDnQ)) with (nthP sqsQ (mkSq (sqX t) yDnQ)) in Hdn.
+    replace (Z.to_N (Z.of_N t - dz)) with (mkSq (sqX t) yDnQ); [exact Hdn|].
+    unfold mkSq, yDnQ, dz. unfold epRow in Hy. destruct wmC as [Ew|Ew]; rewrite Ew in Hy |- *; lia.
+  - destruct Hc as [(A & _)|(_ & _ & Hl)]; [exact A|]. exfalso. unfold lastRank in Hl. pose proof (sqY_zr t) as Z1. rewrite Hy in Z1.
+    unfold epRow in Z1. destruct wmC as [Ew|Ew]; rewrite Ew in Z1, Hl; lia.
+Qed.
+
+Lemma geo_from : RawP -> straight -> (zr t = Z.of_N epRow -> Z.of_N f = (Z.of_N t - dz)%Z).
+Proof.
+  intros [Hf Ht _ Hg _] Hs Hr. unfold straight in Hs.
+  destruct (sq_decomp f Hf) as (Df & _). destruct (sq_decomp t Ht) as (Dt & _).
+  unfold dz, epRow in *. destruct Hg as [A B|A B C _|A B]; unfold dirOf in *; fold wm in B; try fold wm in C;
+    destruct wmC as [Ew|Ew]; rewrite Ew in *; lia.
+Qed.
+
+Lemma nonep_case : RawP -> CandP -> ~ IsEp -> Z.of_N t <> u_epSquare ui.
+Proof.
+  intros R C Hn Et. pose proof (geo_from R) as Hgf. pose proof (geo_ranks ltac:(destruct R; assumption)) as Hft.
+  destruct R as [Hf Ht Hfe Hg Hc]. destruct C as [captured epFile Eep Hepf Ecap Hc13 Hcol Hcol2 Hcm Hst Hep].
+  destruct (ep_in captured epFile Hepf) as (H8 & Hok). rewrite Eep in Et.
+  destruct (epSquare_file epFile H8 Et Ht) as (Hlt & Hy & Hx).
+  destruct (Hok Hlt) as (_ & Hfile).
+  destruct pw_facts as (P1 & P2 & P3 & P4 & P5 & P6 & P7 & P8 & P9).
+  assert (Hec : mustBeEpCapture m pw captured = false).
+  { unfold mustBeEpCapture. rewrite P7. fold f t. rewrite (sqX_eqb f t Hf Ht).
+    destruct (Z.eqb_spec (zf f) (zf t)) as [E|E]; [reflexivity|]. cbn [negb andb].
+    apply N.eqb_neq. intro Ec. apply Hn. split; [exact E | rewrite Ecap; exact Ec]. }
+  rewrite Hec in Hfile. cbn [andb] in Hfile.
+  unfold epFileOk in Hfile. cbv zeta in Hfile. rewrite !andb_true_iff in Hfile. destruct Hfile as (((_ & Hmid) & Hdn) & _).
+  apply N.eqb_eq in Hmid, Hdn. unfold epBoardBefore in Hmid, Hdn. cbv zeta iota in Hmid, Hdn. fold f t sqsQ in Hmid, Hdn.
+  fold epRow in Hmid. fold yDnQ oPawnQ in Hdn.
+  destruct (sq_rowcol t Ht) as (Zy & _ & Dt).
+  assert (Emid : mkSq epFile epRow = t) by (unfold mkSq; rewrite <- Hx, <- Hy; lia).
+  rewrite Emid in Hmid. change (boardAt ?b ?s) with (nthP b s) in Hmid, Hdn.
+  rewrite nthP_updN_eq in Hmid by (rewrite length_updN, lenQ64; lia).
+  (* nothing was captured, so the move is straight, and the origin is the square below the e.p. square *)
+  assert (Hs : straight).
+  { destruct (Z.eq_dec (zf f) (zf t)) as [E|E]; [exact E|]. exfalso. apply Hn. split; [exact E | rewrite Ecap; exact Hmid]. }
+  assert (Ef : Z.of_N f = (Z.of_N t - dz)%Z) by (apply Hgf; [exact Hs | rewrite <- Zy, Hy; reflexivity]).
+  assert (Edn : mkSq epFile yDnQ = f).
+  { unfold mkSq, yDnQ. unfold dz in Ef. unfold epRow in Hy. rewrite <- Hx. destruct wmC as [Ew|Ew]; rewrite Ew in Hy, Ef |- *; lia. }
+  rewrite Edn in Hdn. rewrite nthP_updN_neq in Hdn by (intro E; apply Hft; symmetry; exact E).
+  rewrite nthP_updN_eq in Hdn by (rewrite lenQ64; lia).
+  rewrite P8 in Hdn. unfold oPawnQ in Hdn. destruct wmC as [Ew|Ew]; rewrite Ew in Hdn; discriminate.
+Qed.
+
+(** ** the restored position *)
+Lemma isEp_dec : IsEp \/ ~ IsEp.
+Proof.
+  unfold IsEp, straight. destruct (Z.eq_dec (zf f) (zf t)) as [E|E]; [right; tauto|].
+  destruct (N.eq_dec (u_captured ui) EMPTY) as [E2|E2]; [left; auto | right; tauto].
+Qed.
+
+Definition tb : square := Z.to_N (Z.of_N t - dz).       (* the square of the pawn captured en passant *)
+Definition board1 : list piece := updN f pw (updN t (u_captured ui) sqsQ).
+Definition prevBoardP (ep : bool) : list piece := if ep then updN tb oPawnQ board1 else board1.
+Definition prevScalars : bool * Z * Z * N * Z :=
+  (wm, u_halfMoveClock ui, (if whiteMove q then fullMoveCounter q - 1 else fullMoveCounter q)%Z, u_castleMask ui, u_epSquare ui).
+
+Lemma prev_StP : RawP -> CandP ->
+  (IsEp -> St zk 0 (prevBoardP true) prevScalars prev) /\ (~ IsEp -> St zk 0 (prevBoardP false) prevScalars prev).
+Proof.
+  intros R C. pose proof (ep_case R C) as Hepc. pose proof (nonep_case R C) as Hnep.
+  pose proof (moving_is_pawn R) as Emv.
+  destruct R as [Hf Ht Hfe Hg Hc]. destruct C as [captured epFile Eep Hepf Ecap Hc13 Hcol Hcol2 Hcm Hst Hep].
+  assert (Hcap : u_captured ui < 13) by (rewrite Ecap; exact Hc13).
+  destruct pw_facts as (P1 & P2 & P3 & P4 & P5 & P6 & P7 & P8 & P9).
+  unfold prev. rewrite unMakeMove_unfold.
+  pose proof (St_self zk q Cq) as S0. unfold scalars in S0.
+  destruct (um_restore zk m _ _ _ _ _ _ q ui S0 Hf Ht Hcap) as (E1' & S1). fold f t sqsQ in E1', S1.
+  assert (Epc : (if negb (mpromote m =? EMPTY) then (if negb (whiteMove q) then WPAWN else BPAWN) else nthP sqsQ t) = pw).
+  { unfold movingPieceOf in Emv. change (getPiece q (mto m)) with (nthP sqsQ t) in Emv.
+    destruct (mpromote m =? EMPTY); cbn [negb]; exact Emv. }
+  rewrite Epc in E1', S1. rewrite E1'. fold board1 in S1. fold wm in S1.
+  destruct (St_scalars zk _ _ _ _ _ _ _ _ S1) as (Hw1 & _ & _ & _ & He1).
+  rewrite um_castle_none by (left; rewrite Hw1; exact pw_not_king).
+  split.
+  - intro I. destruct (Hepc I) as (Et & _ & Hy & _).
+    assert (Dt : t = sqY t * 8 + sqX t) by (apply (sq_rowcol t Ht)). assert (Hx : sqX t < 8) by (unfold sqX; apply N.mod_lt; lia).
+    unfold prevBoardP, prevScalars, tb, dz, oPawnQ. rewrite P8. unfold epRow in Hy. fold t.
+    destruct wmC as [Ew|Ew]; rewrite Ew in Hy |- *; rewrite Ew in S1.
+    + replace (Z.to_N (Z.of_N t - 8)) with (t - 8) by lia.
+      apply (um_epW zk m _ _ _ _ _ _ _ S1); fold t; [exact Et | lia | exact Ht].
+    + replace (Z.to_N (Z.of_N t - -8)) with (t + 8) by lia.
+      apply (um_epB zk m _ _ _ _ _ _ _ S1); fold t; [exact Et | lia].
+  - intro I. rewrite um_ep_none; [exact S1|]. left. rewrite He1. fold t. apply Hnep. exact I.
+Qed.
+
+Lemma prev_factsP : RawP -> CandP -> exists ep : bool, (if ep then IsEp else ~ IsEp) /\
+  Consistent zk prev /\ abs prev = mkSpos (prevBoardP ep) wm (u_castleMask ui) (u_epSquare ui).
+Proof.
+  intros R C. destruct (prev_StP R C) as (S1 & S2).
+  destruct isEp_dec as [I|I]; [exists true | exists false]; (split; [exact I|]).
+  - destruct (S1 I) as (Cp & Hs & Hsc). split; [exact Cp|]. unfold scalars, prevScalars in Hsc. inversion Hsc. unfold abs. rewrite Hs. reflexivity.
+  - destruct (S2 I) as (Cp & Hs & Hsc). split; [exact Cp|]. unfold scalars, prevScalars in Hsc. inversion Hsc. unfold abs. rewrite Hs. reflexivity.
+Qed.
+
+(** ** making the move again *)
+Definition landing : piece := if negb (mpromote m =? EMPTY) then mpromote m else pw.
+
+Lemma landing_mpT : RawP -> landing = mpT /\ mpT <> EMPTY.
+Proof.
+  intros [_ _ _ _ [(A & B & _)|(A & (k & Hk & B) & _)]]; unfold landing.
+  - rewrite A. change (negb (EMPTY =? EMPTY)) with false. cbv iota. split; [symmetry; exact B|]. rewrite B. apply pw_facts.
+  - assert (Hne : mpT <> EMPTY).
+    { rewrite B. cbn [In promoKinds] in Hk. generalize wm. intro b. destruct Hk as [<-|[<-|[<-|[<-|[]]]]]; destruct b; discriminate. }
+    replace (mpromote m =? EMPTY) with false by (symmetry; apply N.eqb_neq; rewrite A; exact Hne). cbn [negb]. split; [exact A | exact Hne].
+Qed.
+
+Lemma len_board1 : length board1 = 64%nat.
+Proof. unfold board1. rewrite !length_updN. exact lenQ64. Qed.
+
+Lemma remade_boardP (ep : bool) : RawP -> CandP -> (if ep then IsEp else ~ IsEp) ->
+  fst (captureA (prevBoardP ep) m pw (u_epSquare ui)) = sqsQ.
+Proof.
+  intros R C I. pose proof (ep_case R C) as Hepc. pose proof (nonep_case R C) as Hnep.
+  destruct (landing_mpT R) as (Hland & _). pose proof (geo_ranks ltac:(destruct R; assumption)) as Hft.
+  destruct R as [Hf Ht Hfe Hg Hc].
+  destruct pw_facts as (P1 & P2 & P3 & P4 & P5 & P6 & P7 & P8 & P9).
+  unfold captureA. cbn [fst]. fold f t. fold landing. rewrite Hland.
+  pose proof len_board1 as Hl1. pose proof lenQ64 as HlQ.
+  destruct ep.
+  - (* en passant *)
+    destruct (Hepc I) as (Et & Hbe & Hy & Hpr). destruct I as (Hns & _).
+    assert (Dt : t = sqY t * 8 + sqX t) by (apply (sq_rowcol t Ht)). assert (Hx : sqX t < 8) by (unfold sqX; apply N.mod_lt; lia).
+    assert (Htb : tb < 64 /\ tb <> t /\ Z.of_N tb = (Z.of_N t - dz)%Z).
+    { unfold tb, dz. unfold epRow in Hy. destruct wmC as [Ew|Ew]; rewrite Ew in Hy |- *; lia. }
+    destruct Htb as (Htb & Htbt & Etb).
+    assert (Htbf : tb <> f).
+    { intro E. apply Hns. unfold straight. destruct (sq_decomp f Hf) as (Df & _). destruct (sq_decomp t Ht) as (Dt' & _).
+      rewrite E in Etb. unfold dz in Etb.
+      destruct Hg as [A _|A _ _ _|A B]; try exact A. exfalso. unfold dirOf in B. fold wm in B. destruct wmC as [Ew|Ew]; rewrite Ew in Etb, B; lia. }
+    assert (Hnd : (Z.of_N t =? sqPlus f (if wm then 16 else -16))%Z = false).
+    { apply Z.eqb_neq. intro E. apply Hns. unfold straight, sqPlus in *. destruct (sq_decomp f Hf) as (Df & ? & ?). destruct (sq_decomp t Ht) as (Dt' & ? & ?).
+      destruct wmC as [Ew|Ew]; rewrite Ew in E; lia. }
+    assert (Es1 : fst (epBlockA (prevBoardP true) m pw (u_epSquare ui)) = updN tb EMPTY (prevBoardP true)).
+    { unfold epBlockA. cbv zeta. fold f t. rewrite P8. unfold tb, dz. destruct wmC as [Ew|Ew]; rewrite Ew in Hnd |- *.
+      - change (WPAWN =? WPAWN) with true. cbv iota. rewrite Hnd. rewrite Et, Z.eqb_refl. cbn [fst]. unfold toSq, sqPlus. f_equal. lia.
+      - change (BPAWN =? WPAWN) with false. change (BPAWN =? BPAWN) with true. cbv iota. rewrite Hnd. rewrite Et, Z.eqb_refl. cbn [fst]. unfold toSq, sqPlus. f_equal. lia. }
+    rewrite Es1. unfold prevBoardP, board1.
+    apply list_ext_N; [rewrite !length_updN; exact HlQ | exact HlQ|].
+    intros s Hs. rewrite !nthP_updN by (rewrite ?length_updN, HlQ; lia).
+    destruct (N.eqb_spec s t) as [->|]; [reflexivity|].
+    destruct (N.eqb_spec s f) as [->|]; [symmetry; exact Hfe|].
+    destruct (N.eqb_spec s tb) as [->|]; [symmetry; unfold tb; exact Hbe | reflexivity].
+  - assert (Es1 : fst (epBlockA (prevBoardP false) m pw (u_epSquare ui)) = prevBoardP false).
+    { unfold epBlockA. cbv zeta. fold f t. rewrite P8.
+      replace (Z.of_N t =? u_epSquare ui)%Z with false by (symmetry; apply Z.eqb_neq; apply Hnep; exact I).
+      destruct wmC as [Ew|Ew]; rewrite Ew.
+      - change (WPAWN =? WPAWN) with true. cbv iota. destruct (_ =? _)%Z; reflexivity.
+      - change (BPAWN =? WPAWN) with false. change (BPAWN =? BPAWN) with true. cbv iota. destruct (_ =? _)%Z; reflexivity. }
+    rewrite Es1. unfold prevBoardP, board1.
+    apply list_ext_N; [rewrite !length_updN; exact HlQ | exact HlQ|].
+    intros s Hs. rewrite !nthP_updN by (rewrite ?length_updN, HlQ; lia).
+    destruct (N.eqb_spec s t) as [->|]; [reflexivity|].
+    destruct (N.eqb_spec s f) as [->|]; [symmetry; exact Hfe | reflexivity].
+Qed.
+
+Lemma prevBoard_ft (ep : bool) : RawP -> CandP -> (if ep then IsEp else ~ IsEp) ->
+  nthP (prevBoardP ep) f = pw /\ nthP (prevBoardP ep) t = u_captured ui /\ length (prevBoardP ep) = 64%nat.
+Proof.
+  intros R C I. pose proof (ep_case R C) as Hepc. pose proof (geo_ranks ltac:(destruct R; assumption)) as Hft.
+  destruct R as [Hf Ht Hfe Hg Hc]. pose proof lenQ64 as HlQ.
+  assert (B1 : nthP board1 f = pw /\ nthP board1 t = u_captured ui).
+  { unfold board1. rewrite !nthP_updN by (rewrite ?length_updN, HlQ; lia). rewrite N.eqb_refl.
+    replace (t =? f) with false by (symmetry; apply N.eqb_neq; intro E; apply Hft; symmetry; exact E). rewrite N.eqb_refl. auto. }
+  destruct ep; unfold prevBoardP; [|split; [apply B1 | split; [apply B1 | apply len_board1]]].
+  destruct (Hepc I) as (Et & Hbe & Hy & Hpr). destruct I as (Hns & _).
+  assert (Dt : t = sqY t * 8 + sqX t) by (apply (sq_rowcol t Ht)). assert (Hx : sqX t < 8) by (unfold sqX; apply N.mod_lt; lia).
+  assert (Htb : tb < 64 /\ tb <> t /\ Z.of_N tb = (Z.of_N t - dz)%Z).
+  { unfold tb, dz. unfold epRow in Hy. destruct wmC as [Ew|Ew]; rewrite Ew in Hy |- *; lia. }
+  destruct Htb as (Htb & Htbt & Etb).
+  assert (Htbf : tb <> f).
+  { intro E. apply Hns. unfold straight. destruct (sq_decomp f Hf) as (Df & _). destruct (sq_decomp t Ht) as (Dt' & _).
+    rewrite E in Etb. unfold dz in Etb.
+    destruct Hg as [A _|A _ _ _|A B]; try exact A. exfalso. unfold dirOf in B. fold wm in B. destruct wmC as [Ew|Ew]; rewrite Ew in Etb, B; lia. }
+  rewrite !nthP_updN by (rewrite ?length_updN, len_board1; lia).
+  replace (f =? tb) with false by (symmetry; apply N.eqb_neq; intro E; apply Htbf; symmetry; exact E).
+  replace (t =? tb) with false by (symmetry; apply N.eqb_neq; intro E; apply Htbt; symmetry; exact E).
+  split; [apply B1 | split; [apply B1 | rewrite length_updN; apply len_board1]].
+Qed.
+
+Lemma ep_remade : epSquare (successor zk prev m) = epSquare q.
+Proof.
+  destruct (consistent_partial zk q incl um Hin) as (_ & _ & _ & _ & Hst' & Hrem).
+  assert (E : kiRemade zk (fst (canTakeKing zk (unMakeMove zk q (um_move um) (um_ui um)))) (um_move um) = successor zk prev m).
+  { unfold kiRemade, successor. rewrite canTakeKing_fst. rewrite (fixup_stable zk _ Hst'). reflexivity. }
+  rewrite <- E. exact Hrem.
+Qed.
+
+Lemma makeA_P (ep : bool) : RawP -> CandP -> (if ep then IsEp else ~ IsEp) ->
+  exists e, makeA (mkSpos (prevBoardP ep) wm (u_castleMask ui) (u_epSquare ui)) m = mkSpos sqsQ (whiteMove q) (castleMask q) e.
+Proof.
+  intros R C I. destruct (prevBoard_ft ep R C I) as (Bf & Bt & Bl). pose proof (remade_boardP ep R C I) as Hb.
+  destruct C as [captured epFile Eep Hepf Ecap Hc13 Hcol Hcol2 Hcm Hst Hep].
+  exists (snd (captureA (prevBoardP ep) m pw (u_epSquare ui))).
+  unfold makeA. cbn [sp_board sp_white sp_castle sp_ep].
+  assert (Hcb : isCaptureBranch (prevBoardP ep) m = true).
+  { unfold isCaptureBranch. fold f t. rewrite Bf. destruct pw_facts as (P1 & _). rewrite P1. apply orb_true_r. }
+  rewrite Hcb. fold f t. rewrite Bf, Hb, Hcm. unfold wm. rewrite negb_involutive. reflexivity.
+Qed.
+
+Theorem roundtripP : RawP -> CandP -> Consistent zk prev /\ abs (successor zk prev m) = abs q.
+Proof.
+  intros R C. destruct (prev_factsP R C) as (ep & I & Cp & Ha). split; [exact Cp|].
+  destruct (makeA_P ep R C I) as (e & HA).
+  assert (Hf : f < 64) by (destruct R; assumption).
+  pose proof (makeMove_abs zk prev m Cp Hf) as Hm.
+  assert (Hm' : abs (fst (makeMove zk prev m)) = mkSpos sqsQ (whiteMove q) (castleMask q) e) by (rewrite Hm, Ha; exact HA).
+  pose proof ep_remade as Hrem. unfold successor in Hrem |- *.
+  destruct (fixup_frame zk (fst (makeMove zk prev m))) as (F1 & _ & F3 & _).
+  pose proof (squares_fixup zk (fst (makeMove zk prev m))) as F0.
+  revert Hm' Hrem F1 F3 F0. generalize (fst (makeMove zk prev m)). intros X Hm' Hrem F1 F3 F0.
+  unfold abs in Hm' |- *. rewrite F0, F1, F3, Hrem. injection Hm' as -> -> -> _. reflexivity.
+Qed.
+
+(** ** legality by the FIDE rules *)
+Lemma isEp_iff : RawP -> CandP -> (IsEp <-> ~ straight /\ u_captured ui = EMPTY).
+Proof. intros _ _. unfold IsEp. tauto. Qed.
+
+Theorem pseudoP (ep : bool) : RawP -> CandP -> (if ep then IsEp else ~ IsEp) ->
+  In m (pseudo_moves (mkSpos (prevBoardP ep) wm (u_castleMask ui) (u_epSquare ui))).
+Proof.
+  intros R C I. destruct (prevBoard_ft ep R C I) as (Bf & Bt & Bl).
+  pose proof (ep_case R C) as Hepc. pose proof (geo_ranks ltac:(destruct R; assumption)) as Hft.
+  destruct R as [Hf Ht Hfe Hg Hc]. destruct C as [captured epFile Eep Hepf Ecap Hc13 Hcol Hcol2 Hcm Hst Hep].
+  set (pb := prevBoardP ep) in *.
+  assert (Hat : forall s, s < 64 -> at_ pb (zf s) (zr s) = nthP pb s).
+  { intros s Hs. destruct (coords_of_sq s Hs) as (Hob & Hi & _). unfold at_, nthP. rewrite Hob, Hi. reflexivity. }
+  destruct (coords_of_sq f Hf) as (Hobf & _ & Hsf). destruct (coords_of_sq t Ht) as (Hobt & _ & Hst').
+  destruct (sq_decomp t Ht) as (Dt & Dt1 & Dt2). destruct (sq_decomp f Hf) as (Df & Df1 & Df2).
+  destruct pw_facts as (P1 & P2 & P3 & P4 & P5 & P6 & P7 & P8 & P9).
+  assert (Htc : forall fx', fx' = zf t -> zr t = (zr f + dirOf wm)%Z ->
+            on_board fx' (zr f + dirOf wm) = true /\ at_ pb fx' (zr f + dirOf wm) = u_captured ui /\ sq_of fx' (zr f + dirOf wm) = t).
+  { intros fx' -> E. rewrite <- E. split; [exact Hobt|]. split; [rewrite (Hat t Ht); exact Bt | exact Hst']. }
+  assert (Hm : forall fx' r', sq_of fx' r' = t -> m = mv (zf f) (zr f) fx' r' (mpromote m)).
+  { intros fx' r' E. unfold mv. rewrite Hsf, E. apply move_eta. }
+  (* promotion or not, by the rank of the target *)
+  assert (Harr : forall fx', sq_of fx' (zr f + dirOf wm) = t -> zr t = (zr f + dirOf wm)%Z ->
+            In m (pawn_arrive wm (zf f) (zr f) fx' (zr f + dirOf wm))).
+  { intros fx' E Er. apply pawn_arrive_In. rewrite <- Er.
+    destruct Hc as [(A & _ & B & _)|(A & (k & Hk & B) & Cl)].
+    - right. split; [unfold lastRank; destruct wmC as [Ew|Ew]; rewrite Ew; lia|]. rewrite Er, <- A. apply Hm. exact E.
+    - left. split; [exact Cl|]. exists k. split; [exact Hk|]. rewrite <- B, <- A, Er. apply Hm. exact E. }
+  unfold pseudo_moves. apply in_app_iff. left. apply in_flat_map. exists (zf f, zr f). split; [apply all_coords_on_board; exact Hobf|].
+  cbn [fst snd].
+  apply (piece_moves_In _ (zf f) (zr f) m).
+  { cbn [sp_board]. rewrite (Hat f Hf), Bf. lia. }
+  cbn [sp_board sp_white]. rewrite (Hat f Hf), Bf. right. right. right. right. right. split; [exact pw_mk|].
+  apply pawn_moves_In. cbn [sp_board sp_white sp_ep].
+  destruct Hg as [A B | A B Cr Hmid | A B].
+  - (* single step *)
+    left. assert (Er : zr t = (zr f + dirOf wm)%Z) by (fold wm in B; lia).
+    destruct (Htc (zf f) A Er) as (T1 & T2 & T3). unfold S_push1. split; [exact T1|]. split; [rewrite T2, Ecap; apply Hst; exact A|].
+    apply Harr; assumption.
+  - (* double step *)
+    right. left. fold wm in B, Cr, Hmid.
+    assert (Hns : ep = false).
+    { destruct ep; [|reflexivity]. exfalso. destruct I as (Hns & _). apply Hns. exact A. }
+    assert (Hpr : mpromote m = EMPTY).
+    { destruct Hc as [(X & _)|(_ & _ & Cl)]; [exact X|]. exfalso. unfold lastRank in Cl. destruct wmC as [Ew|Ew]; rewrite Ew in Cl, Cr; lia. }
+    assert (Hobm : on_board (zf f) (zr f + dirOf wm) = true).
+    { unfold on_board in *. rewrite !andb_true_iff, !Z.leb_le in *. unfold dirOf in *. destruct wmC as [Ew|Ew]; rewrite Ew in *; lia. }
+    destruct (sq_of_coords _ _ Hobm) as (Mid64 & Mf & Mr & _).
+    unfold S_push2. split; [exact Hobm|]. split; [|split; [|split]].
+    + set (mid := sq_of (zf f) (zr f + dirOf wm)) in *.
+      replace (zf f) with (zf mid) by exact Mf. rewrite <- Mr. rewrite (Hat mid Mid64).
+      replace (sq_of (zf t) (zr t - dirOf wm)) with mid in Hmid by (unfold mid; f_equal; lia).
+      unfold pb. rewrite Hns. unfold prevBoardP, board1.
+      assert (mid <> f /\ mid <> t).
+      { destruct (sq_decomp mid Mid64) as (Dm & _). unfold dirOf in *. destruct wmC as [Ew|Ew]; rewrite Ew in *; split; intro E; rewrite E in *; lia. }
+      rewrite !nthP_updN_neq by (intro E; symmetry in E; tauto). exact Hmid.
+    + unfold startRank. destruct wmC as [Ew|Ew]; rewrite Ew in Cr, B |- *; unfold dirOf in B; lia.
+    + replace (zr f + dirOf wm + dirOf wm)%Z with (zr t) by lia. rewrite A, (Hat t Ht), Bt, Ecap. apply Hst. exact A.
+    + replace (zr f + dirOf wm + dirOf wm)%Z with (zr t) by lia. rewrite <- Hpr. apply Hm. rewrite A. exact Hst'.
+  - (* capture *)
+    fold wm in B. assert (Er : zr t = (zr f + dirOf wm)%Z) by lia.
+    assert (Hns : ~ straight) by (unfold straight; lia).
+    assert (Hcapt : forall fx', fx' = zf t -> S_capture pb wm (u_epSquare ui) (zf f) (zr f) fx' m).
+    { intros fx' Efx. destruct (Htc fx' Efx Er) as (T1 & T2 & T3). unfold S_capture. split; [exact T1|]. rewrite T2, T3.
+      destruct (N.eq_dec captured EMPTY) as [Ece|Ece].
+      - right. rewrite Ecap, Ece. split; [generalize wm; intros []; reflexivity|]. split; [apply Hep; assumption|]. split; [reflexivity|].
+        assert (Ie : IsEp) by (split; [exact Hns | rewrite Ecap; exact Ece]).
+        destruct (Hepc Ie) as (_ & _ & _ & Hpr). rewrite <- Hpr. apply Hm. exact T3.
+      - left. rewrite Ecap. split; [apply Hcol2; exact Ece|]. apply Harr; assumption. }
+    destruct A as [A|A]; [right; right; right; apply Hcapt; lia | right; right; left; apply Hcapt; lia].
+Qed.
+
+Lemma make_specP (ep : bool) : RawP -> CandP -> (if ep then IsEp else ~ IsEp) ->
+  sp_board (make_spec (mkSpos (prevBoardP ep) wm (u_castleMask ui) (u_epSquare ui)) m) = sqsQ.
+Proof.
+  intros R C I. destruct (prevBoard_ft ep R C I) as (Bf & Bt & Bl).
+  pose proof (ep_case R C) as Hepc. pose proof (geo_ranks ltac:(destruct R; assumption)) as Hft.
+  destruct (landing_mpT R) as (Hland & _).
+  destruct R as [Hf Ht Hfe Hg Hc]. destruct C as [captured epFile Eep Hepf Ecap Hc13 Hcol Hcol2 Hcm Hst Hep].
+  pose proof lenQ64 as HlQ. pose proof len_board1 as Hl1.
+  rewrite (make_spec_board _ m Hf Ht). cbv zeta. cbn [sp_board sp_white]. fold f t.
+  change (nth (N.to_nat f) (prevBoardP ep) EMPTY) with (nthP (prevBoardP ep) f).
+  change (nth (N.to_nat t) (prevBoardP ep) EMPTY) with (nthP (prevBoardP ep) t). rewrite Bf, Bt.
+  replace (is_piece wm King pw) with false by (unfold pw; generalize wm; intros []; reflexivity).
+  replace (is_piece wm Pawn pw) with true by (unfold pw; generalize wm; intros []; reflexivity).
+  cbn [andb].
+  assert (Eland : (if mpromote m =? EMPTY then pw else mpromote m) = mpT).
+  { rewrite <- Hland. unfold landing. destruct (mpromote m =? EMPTY); reflexivity. }
+  rewrite Eland.
+  destruct ep.
+  - destruct (Hepc I) as (Et & Hbe & Hy & Hpr). destruct I as (Hns & Hce).
+    replace (zf t =? zf f)%Z with false by (symmetry; apply Z.eqb_neq; intro E; apply Hns; unfold straight; lia).
+    rewrite Hce. change (EMPTY =? EMPTY) with true. cbn [negb andb].
+    assert (Dt : t = sqY t * 8 + sqX t) by (apply (sq_rowcol t Ht)). assert (Hx : sqX t < 8) by (unfold sqX; apply N.mod_lt; lia).
+    assert (Htb : tb < 64 /\ tb <> t /\ Z.of_N tb = (Z.of_N t - dz)%Z).
+    { unfold tb, dz. unfold epRow in Hy. destruct wmC as [Ew|Ew]; rewrite Ew in Hy |- *; lia. }
+    destruct Htb as (Htb & Htbt & Etb).
+    assert (Esq : sq_of (zf t) (zr f) = tb).
+    { destruct (sq_decomp tb Htb) as (Db & Db1 & Db2). destruct (sq_decomp t Ht) as (Dt' & Dt1 & Dt2). destruct (sq_decomp f Hf) as (Df & Df1 & Df2).
+      assert (Hzr : zr f = (zr t - dirOf wm)%Z) by (destruct Hg as [A B|A B _ _|A B]; fold wm in B; try exact B; exfalso; apply Hns; exact A).
+      assert (zf tb = zf t /\ zr tb = zr f).
+      { unfold dz in Etb. unfold dirOf in Hzr. destruct wmC as [Ew|Ew]; rewrite Ew in Etb, Hzr; lia. }
+      destruct H as (X1 & X2). rewrite <- X1, <- X2. apply (coords_of_sq tb Htb). }
+    rewrite Esq. unfold prevBoardP, board1.
+    apply list_ext_N; [rewrite !length_updN; exact HlQ | exact HlQ|].
+    intros s Hs. rewrite !nthP_updN by (rewrite ?length_updN, HlQ; lia).
+    destruct (N.eqb_spec s t) as [->|]; [reflexivity|].
+    destruct (N.eqb_spec s tb) as [->|]; [symmetry; unfold tb; exact Hbe|].
+    destruct (N.eqb_spec s f) as [->|]; [symmetry; exact Hfe | reflexivity].
+  - assert (His : negb (zf t =? zf f)%Z && (u_captured ui =? EMPTY) = false).
+    { destruct (Z.eqb_spec (zf t) (zf f)) as [E|E]; [reflexivity|]. cbn [negb andb]. apply N.eqb_neq. intro Ece. apply I.
+      split; [unfold straight; lia | exact Ece]. }
+    rewrite His. unfold prevBoardP, board1.
+    apply list_ext_N; [rewrite !length_updN; exact HlQ | exact HlQ|].
+    intros s Hs. rewrite !nthP_updN by (rewrite ?length_updN, HlQ; lia).
+    destruct (N.eqb_spec s t) as [->|]; [reflexivity|].
+    destruct (N.eqb_spec s f) as [->|]; [symmetry; exact Hfe | reflexivity].
+Qed.
+
+(** C15_consistent_statement for pawn un-moves and un-promotions *)
+Theorem consistent_pawnlike :
+  Consistent zk prev /\ legal_spec (abs prev) m /\ abs (successor zk prev m) = abs q.
+Proof.
+  pose proof rawP as R. pose proof (candP R) as C.
+  destruct (roundtripP R C) as (Cp & Hrt). split; [exact Cp|]. split; [|exact Hrt].
+  destruct (prev_factsP R C) as (ep & I & _ & Ha). unfold legal_spec. rewrite Ha. split; [apply (pseudoP ep R C I)|].
+  rewrite (make_specP ep R C I). cbn [sp_white].
+  destruct (WF_parts q Hwf) as (_ & _ & _ & _ & Hacc). destruct (accepted_parts _ Hacc) as (_ & _ & _ & _ & Hck & _).
+  cbn [abs sp_board sp_white] in Hck. exact Hck.
 Qed.
 
 End PawnCons.
